@@ -15,7 +15,7 @@ class ProgGen:
                  p_stuck: float = 0.08, p_factory: float = 0.15, p_opt: float = 0.1, p_delay_pub: float = 0.0, min_nodes: int = 1,
                  p_act_await: float = 0.2, p_overlap: float = 0.1,
                  p_busy: float = 0.0, p_contend: float = 0.08, p_abort: float = 0.08,
-                 p_failfac: float = 0.0) -> None:
+                 p_failfac: float = 0.0, p_twins: float = 0.1) -> None:
         self.rng = rng
         self.max_nodes = max_nodes
         self.max_depth = max_depth
@@ -35,6 +35,7 @@ class ProgGen:
         self.p_contend = p_contend
         self.p_abort = p_abort
         self.p_failfac = p_failfac
+        self.p_twins = p_twins
         self.prog: list[dict[str, Any]] = []
         self.keys: list[tuple[int, str, int]] = []     # (ty, final name, publisher)
         self.used: set[tuple[int, str]] = set()
@@ -298,6 +299,19 @@ class ProgGen:
         if rng.random() < 0.7:
             self.leaf([{"a": "tick", "d": end + 0.25}, {"a": "await", "ty": ty, "name": key, "keep": True}])
 
+    def twins(self) -> None:
+        """Two components of one class, declared only in the configuration handed to start_component(), under two
+        aliases that refer to ONE mapping object (what a YAML anchor/alias loads as), each with a child of its own
+        declared in that mapping: both subtrees are built and started."""
+        rng = self.rng
+        for k in (1, 2):
+            i = len(self.prog)
+            self.prog.append({"path": f"tw/{k}", "parent": 0, "cls": i, "ctorFails": False, "dflt": str(k), "twin": "T",
+                              "prepare": None, "start": [{"a": "tick", "d": rng.choice([0, 1])}], "children": [i + 1]})
+            self.prog[0]["children"].append(i)
+            self.prog.append({"path": f"tw/{k}.lf", "parent": i, "cls": i + 1, "ctorFails": False, "dflt": "default",
+                              "twin": "TL", "prepare": None, "start": [{"a": "tick", "d": 0}], "children": []})
+
     def failfac(self) -> None:
         """A component is already waiting for a resource when a factory for it is registered whose call fails - with a
         LookupError, of all things: the waiting component's start() fails with that error (it is not "still missing").
@@ -333,7 +347,7 @@ class ProgGen:
 
     def inject_fault(self) -> None:
         rng = self.rng
-        i = rng.randrange(len(self.prog))
+        i = rng.choice([n for n, sp in enumerate(self.prog) if not sp.get("twin")])     # (twins share a class)
         spec = self.prog[i]
         r = rng.random()
         if r < 0.15:
@@ -365,6 +379,8 @@ class ProgGen:
             self.failfac()          # (the one failure of this start-up)
         elif rng.random() < self.p_fail:
             self.inject_fault()
+        if rng.random() < self.p_twins:
+            self.twins()            # (last: children declared in the configuration come after the hard-coded ones)
         timeout = 10.0 ** 6
         if rng.random() < self.p_timeout:
             timeout = rng.randint(0, 14) + 0.5 if rng.random() < 0.85 else 0.0
